@@ -295,13 +295,20 @@ Proof.
     + apply (IH k x Ho); [|exact Hn]. destruct r; simpl in *; lia.
 Qed.
 
-Lemma items_of_delitem p sh : ordered sh = true -> items_of (fst (delitem p sh)) = items_of sh.
+Lemma ns_abs_spec sh : forall k j, ns_abs k sh = Some j -> exists r, nth_error sh j = Some (RNs r).
 Proof.
-  intros Ho. unfold delitem. destruct (find_last p (nsl sh)) as [k|] eqn:E; [|reflexivity].
-  apply find_last_lt in E. unfold delete_rule. destruct (nth_error sh k) as [x|] eqn:En; [|reflexivity].
-  pose proof (ordered_nth_nobody sh k x Ho E En) as Hx.
-  destruct x; simpl; try (now apply (items_of_remove k sh _ En)).
-  destruct (can_delete r sh); simpl; [now apply (items_of_remove k sh _ En)|reflexivity].
+  induction sh as [|x t IH]; intros k j H; simpl in H; [discriminate|].
+  destruct x; try (destruct (ns_abs k t) as [j'|] eqn:E; [|discriminate]; inversion H; subst; simpl; now apply (IH k)).
+  destruct k as [|k]; [inversion H; subst; simpl; eauto|].
+  destruct (ns_abs k t) as [j'|] eqn:E; [|discriminate]. inversion H; subst. simpl. now apply (IH k).
+Qed.
+
+(* no order hypothesis is needed any more: the rule deleted through the mapping is an @namespace rule *)
+Lemma items_of_delitem p sh : items_of (fst (delitem p sh)) = items_of sh.
+Proof.
+  unfold delitem. destruct (find_last p (nsl sh)) as [k|]; [|reflexivity].
+  destruct (ns_abs k sh) as [j|] eqn:E; [|reflexivity].
+  apply ns_abs_spec in E as (r & Hr). now apply (items_of_delete_ns j sh r).
 Qed.
 
 Lemma items_of_setitem p u sh : items_of (fst (setitem p u sh)) = items_of sh.
@@ -327,7 +334,8 @@ Lemma step_frame o sh :
 Proof.
   intros Ho. destruct o; simpl.
   - split; [apply items_of_setitem|now apply ordered_setitem].
-  - split; [now apply items_of_delitem|]. unfold delitem. destruct (find_last p (nsl sh)); [now apply ordered_delete|exact Ho].
+  - split; [apply items_of_delitem|]. unfold delitem. destruct (find_last p (nsl sh)) as [k|]; [|exact Ho].
+    destruct (ns_abs k sh); [now apply ordered_delete|exact Ho].
   - split; [apply items_of_insert|now apply ordered_insert_ns].
   - split; [apply items_of_insert|now apply ordered_insert_ns].
   - unfold insert_text. destruct (Nat.ltb _ _); [now split|]. destruct (dhas (view sh) p); [now split|].
@@ -464,7 +472,7 @@ Proof.
       destruct (dhas (view sh) p && negb (eqs (uri n) u)); [exact H|].
       destruct (mems u (dvals (view sh))); simpl; [now apply allgood_upd|exact H].
     + destruct u; [exact H|]. apply allgood_insert; [apply good_obj|exact H].
-  - unfold delitem. destruct (find_last p (nsl sh)); [now apply allgood_delete|exact H].
+  - unfold delitem. destruct (find_last p (nsl sh)) as [k|]; [|exact H]. destruct (ns_abs k sh); [now apply allgood_delete|exact H].
   - apply allgood_insert; [apply good_obj|exact H].
   - apply allgood_insert; [apply good_obj|exact H].
   - unfold insert_text. destruct (Nat.ltb _ _); [exact H|]. destruct (dhas (view sh) p); [exact H|].
@@ -586,7 +594,7 @@ Proof.
       destruct (dhas (view sh) p && negb (eqs (uri n) u0)); [exact Hn|].
       destruct (mems u0 (dvals (view sh))); simpl; [now rewrite cnt_upd|exact Hn].
     + destruct u0; [exact Hn|now apply insert_count].
-  - unfold delitem. destruct (find_last p (nsl sh)); [now apply delete_count|exact Hn].
+  - unfold delitem. destruct (find_last p (nsl sh)) as [k|]; [|exact Hn]. destruct (ns_abs k sh); [now apply delete_count|exact Hn].
   - now apply insert_count.
   - now apply insert_count.
   - unfold insert_text. destruct (Nat.ltb _ _); [exact Hn|]. destruct (dhas (view sh) p); [exact Hn|now apply insert_count].
